@@ -125,6 +125,23 @@ def ref_definitions(tier):
     return defs
 
 
+def big_ref_definitions(tier):
+    """more than 20 units with many ties in scrambled declaration order: beyond the size below which the standard
+    library's unstable sorts happen to be stable"""
+    lits = ["1000", "0.5", "1", "0.001", "1000.", "2.5", "1.0", "0.5", "1e3", "0.001", "2.5", "1", "1000", "0.5", "1.0", "2.5",
+            "0.001", "1e3", "0.5", "1", "1000.", "2.5", "0.001", "1.0"]
+    defs = []
+    n = len(lits)
+    orders = [list(range(n + 1)), list(range(n, -1, -1)), list(range(7, n + 1)) + list(range(7))]
+    if tier == "thorough":
+        orders.append([(i * 7) % (n + 1) for i in range(n + 1)])
+    for k, order in enumerate(orders):
+        us = [unit("Unit_%s%sx" % (chr(65 + i // 13), chr(97 + i % 13)), "u%s%s" % (chr(97 + i // 13), chr(97 + i % 13)), lit) for i, lit in enumerate(lits)]
+        ref = unit("Ref_Unit", SYMS[0])
+        defs.append({"kind": "ref", "ref": ref, "units": us, "order": order, "doc_pos": None, "combo": ("big",) + tuple(lits)})
+    return defs
+
+
 def noref_definitions(tier):
     defs = []
     for n in (1, 2, 3):
